@@ -10,6 +10,7 @@ import (
 	"fmt"
 	"io"
 	"net"
+	"os"
 	"strconv"
 	"syscall"
 	"time"
@@ -111,6 +112,7 @@ type Conn struct {
 	ClosedAt int64
 	// Accepted is set when a library Accept returned this endpoint.
 	Accepted bool
+	rdl      int64 // virtual read deadline (0 = none)
 }
 
 // Chunk is one logged write.
@@ -168,8 +170,11 @@ func (c *Conn) Pending() int {
 
 func (c *Conn) Read(p []byte) (int, error) {
 	vrt.Wait("net.Conn.Read", "net-read", func() bool {
-		return len(c.in) > 0 || c.inEOF || c.rst || c.closed
+		return len(c.in) > 0 || c.inEOF || c.rst || c.closed || (c.rdl > 0 && vrt.Cur().Now() >= c.rdl)
 	}, false, c.obj)
+	if c.rdl > 0 && vrt.Cur().Now() >= c.rdl && len(c.in) == 0 && !c.inEOF && !c.rst && !c.closed {
+		return 0, &net.OpError{Op: "read", Net: "tcp", Source: c.local, Addr: c.remote, Err: os.ErrDeadlineExceeded}
+	}
 	if c.closed {
 		return 0, &net.OpError{Op: "read", Net: "tcp", Source: c.local, Addr: c.remote, Err: net.ErrClosed}
 	}
@@ -274,7 +279,19 @@ func (c *Conn) Reset() {
 func (c *Conn) LocalAddr() net.Addr                { return c.local }
 func (c *Conn) RemoteAddr() net.Addr               { return c.remote }
 func (c *Conn) SetDeadline(t time.Time) error      { return nil }
-func (c *Conn) SetReadDeadline(t time.Time) error  { return nil }
+
+// SetReadDeadline sets a virtual read deadline (zero = none).
+func (c *Conn) SetReadDeadline(t time.Time) error {
+	if t.IsZero() {
+		c.rdl = 0
+		return nil
+	}
+	c.rdl = int64(t.Sub(vrt.Epoch))
+	if d := c.rdl - vrt.Cur().Now(); d > 0 {
+		vrt.NewTimer(time.Duration(d)) // makes the clock advance to the deadline
+	}
+	return nil
+}
 func (c *Conn) SetWriteDeadline(t time.Time) error { return nil }
 
 // Listener is a virtual TCP listener.
